@@ -5,11 +5,12 @@
 #include "lib.h"
 
 enum { R_IN, R_OUT, R_INOUT, R_SCRATCH };
-enum { F_NONE, F_I64, F_DBL, F_DBLINT, F_U64, F_U32A, F_C120, F_I32 };
+enum { F_NONE, F_I64, F_DBL, F_DBLINT, F_U64, F_U32A, F_C120, F_I32, F_RATIO };
 
 typedef struct {
   int role, fill;
-  unsigned fillarg;  // bits (F_I64 / F_DBLINT), ignored otherwise
+  unsigned fillarg;  // bits (F_I64 / F_DBLINT / F_RATIO: |ratio| < 2^fillarg), ignored otherwise
+  double fscale;     // F_RATIO: values are ratio * fscale (fscale a power of two)
   size_t bytes, align;
   int is_zvec;       // int64 limb vector with stride padding
   uint64_t n, size, sl;
@@ -88,11 +89,18 @@ typedef struct {
   uint64_t src_bytes, out_bytes, scratch_bytes;
   char shape[64];
   char msg[200];
+  // MON_CAPTURE: concatenated IN buffers / OUT+INOUT buffers (limb contents for strided vectors), malloc'ed
+  uint8_t* cap_in;
+  uint8_t* cap_out;
+  size_t cap_in_bytes, cap_out_bytes;
+  uint64_t u[8];  // the plan's scalar parameters (e.g. divisor exponent, ell)
+  double d[2];
 } opres_t;
 
 #define MON_CANARY 1u
 #define MON_SNAPSHOT 2u
 #define MON_VALGRIND 4u  // mark OUT/SCRATCH undefined before, check OUT defined after (memcheck client requests)
+#define MON_CAPTURE 8u   // keep copies of the inputs (before the call) and of the outputs (after); caller frees res->cap_*
 // Executes catalogue entry `o` once. All parameters (shape, strides, operand values) derive from `seed` only,
 // never from `prefill` (pattern written to OUT and SCRATCH buffers before the call) or `mis` (byte
 // misalignment selector of every buffer) — so results must not depend on the latter two. Thread-safe.
